@@ -943,6 +943,15 @@ type WeightedBipartitionStats struct {
 //
 // Since this function builds an edge index for the reference tree and the compared trees it will use about twice as much memory
 // as `Compare`, so if you do not need the branch length differences it will be more efficient to use `Compare` than `CompareWeighted`
+// lengthOrZero returns the length of the branch, 0 if it has none:
+// NIL_LENGTH (-1) marks an absent length and is not a length
+func lengthOrZero(e *Edge) float64 {
+	if e.Length() == NIL_LENGTH {
+		return 0.0
+	}
+	return e.Length()
+}
+
 func CompareWeighted(refTree *Tree, compTrees <-chan Trees, tips, comparetreeidentical bool, cpus int) (<-chan WeightedBipartitionStats, error) {
 	var refEdges []*Edge
 
@@ -961,7 +970,7 @@ func CompareWeighted(refTree *Tree, compTrees <-chan Trees, tips, comparetreeide
 	refEdges = refTree.Edges()
 	refIndex := NewEdgeIndex(uint64(len(refEdges)*2), 0.75)
 	for i, e := range refEdges {
-		refIndex.PutEdgeValue(e, i, e.Length())
+		refIndex.PutEdgeValue(e, i, lengthOrZero(e))
 	}
 
 	var wg sync.WaitGroup
@@ -987,7 +996,7 @@ func CompareWeighted(refTree *Tree, compTrees <-chan Trees, tips, comparetreeide
 						compEdges := treeV.Tree.Edges()
 						compIndex := NewEdgeIndex(uint64(len(compEdges)*2), 0.75)
 						for i, e := range compEdges {
-							compIndex.PutEdgeValue(e, i, e.Length())
+							compIndex.PutEdgeValue(e, i, lengthOrZero(e))
 						}
 
 						VerifYield()
@@ -1001,7 +1010,7 @@ func CompareWeighted(refTree *Tree, compTrees <-chan Trees, tips, comparetreeide
 									refEdge, ok := refIndex.Value(compEdge)
 									if ok { // Common edge
 										refLen := refEdge.Len
-										compLen := compEdge.Length()
+										compLen := lengthOrZero(compEdge)
 										if refLen != compLen {
 											sametree = false
 											if comparetreeidentical {
@@ -1016,7 +1025,7 @@ func CompareWeighted(refTree *Tree, compTrees <-chan Trees, tips, comparetreeide
 											break
 										}
 
-										Comp = append(Comp, compEdge.Length())
+										Comp = append(Comp, lengthOrZero(compEdge))
 									}
 								}
 							}
@@ -1031,7 +1040,7 @@ func CompareWeighted(refTree *Tree, compTrees <-chan Trees, tips, comparetreeide
 											break
 										}
 
-										Ref = append(Ref, refEdge.Length())
+										Ref = append(Ref, lengthOrZero(refEdge))
 									}
 								}
 							}
